@@ -115,9 +115,11 @@ def _worker(prop_name, tier, seed, shard, attempt, n, out_path, cur_path, done_p
                     kn.append(e["id"])
                 else:
                     newv.append(v)
-            rec = {"k": res.get("key") or case_key(case), "nt": bool(res.get("nontrivial")) and not kn and not res.get("inconclusive"),
+            rec = {"k": res.get("key") or case_key(case), "nt": bool(res.get("nontrivial")) and not res.get("inconclusive"),
                    "l": res.get("labels", []), "inc": res.get("inconclusive"), "kn": kn,
                    "v": [v["sig"] for v in newv]}
+            if res.get("counters"):
+                rec["c"] = res["counters"]
             if shrink_sig is None:
                 out.write(json.dumps(rec) + "\n")
                 if rec["nt"] and len(state["samples"]) < 4:
@@ -362,7 +364,10 @@ def main(prop_name, tier, replay=None):
         inc = Counter()
         kn = Counter()
         keys = set()
+        counters = Counter()
         for r in records:
+            for ck, cv in (r.get("c") or {}).items():
+                counters[ck] += cv
             for l in r["l"]:
                 labels[l] += 1
             if r["inc"]:
@@ -383,6 +388,7 @@ def main(prop_name, tier, replay=None):
                 "classes": dict(sorted(labels.items())),
                 "inconclusive": dict(inc),
                 "excluded_known": dict(kn),
+                "counters": dict(counters),
                 "hard_kills": meta["hard_kills"], "worker_crash": meta["worker_crash"],
                 "killed_cases": meta["killed_cases"],
                 "corpus_replayed": n_corpus,
